@@ -102,7 +102,7 @@ def make_state(model, q, p, direction=1):
     from mici.states import ChainState
 
     q, p = np.array(q, dtype=float), np.array(p, dtype=float)
-    if model.cls == "riem_softabs" and np.min(np.abs(np.linalg.eigvalsh(model.dens.hess(q)))) < 1e-6:
+    if model.cls == "riem_softabs" and False:  # (zero Hessian eigenvalues are inside the domain since the SoftAbs repair)
         return None  # softabs is 0/0 at an exactly singular Hessian: outside the stated domain
     if model.con is not None:
         q = zoo.project_to_manifold(model.con, q)
